@@ -43,7 +43,10 @@ manifest = {
     }],
     "checks": checks,
     "not_applicable": na,
-    "notes": "See DESIGN.md. Exit 2 from a check means infrastructure failure (no verdict).",
+    "notes": "See DESIGN.md (section 13 = what was built; 13.20 trusted base; 13.21 final sweep). Exit 2 from a check means infrastructure failure (no verdict). "
+             "Open and fixed findings: known_findings.json (KNOWN-FINDING lines; never written at run time). Seeded changes and which check reports them: seeded/DETECTION.md; "
+             "property-preserving rewrites: seeded/HARMLESS.md. VERIF_SEED and VERIF_TIER are honoured; VERIF_HARNESS_DIR / VERIF_TARGET_DIR / VERIF_OUT_DIR exist only for "
+             "checklib/psweep.py (parallel examination of seeded changes on scratch worktrees) and are never set by the registered commands.",
 }
 json.dump(manifest, open(os.path.join(os.path.dirname(os.path.abspath(__file__)), "..", "MANIFEST.json"), "w"), indent=1)
 print("checks:", [c["property_id"] for c in checks], "not_applicable:", [n["property_id"] for n in na])
